@@ -277,6 +277,17 @@ theorem mapGet_mapSet_self (m : List (Str × Str)) (k v : Str) : mapGet (mapSet 
     · simp [mapSet, mapGet, h]
     · simp [mapSet, mapGet, h, ih]
 
+theorem mapSet_fresh {m : List (Str × Str)} {p : Str × Str} (hp : mapHas m p.1 = false) :
+    mapSet m p.1 p.2 = m ++ [p] := by
+  induction m with
+  | nil => simp [mapSet]
+  | cons q qs ihq =>
+    simp only [mapHas] at hp
+    by_cases hq : q.1 = p.1
+    · simp [hq] at hp
+    · simp only [hq, if_false] at hp
+      simp [mapSet, hq, ihq hp]
+
 /-- the invariant of `keyValParseOrdered`'s two results -/
 structure KV.Inv (kv : KV) : Prop where
   keys_eq : kv.keys = kv.map.map Prod.fst
@@ -285,7 +296,6 @@ structure KV.Inv (kv : KV) : Prop where
 theorem KV.Inv.add {kv : KV} (h : kv.Inv) (k v : Str) : (kv.add k v).Inv := by
   constructor
   · simp only [KV.add, mapSet_keys, h.keys_eq]
-    split <;> rfl
   · simp only [KV.add, mapSet_keys]
     split
     · exact h.nodup
@@ -349,16 +359,7 @@ theorem KV.foldl_fresh (raw : List (Str × Str)) : ∀ kv : KV, kv.Inv → (raw.
       | false => rfl
       | true => exact absurd ((mapHas_iff _ _).mp hh) (hfresh p.1 (by simp))
     have hmap : (kv.add p.1 p.2).map = kv.map ++ [p] := by
-      simp only [KV.add]
-      clear ih h hfresh
-      induction kv.map with
-      | nil => simp [mapSet]
-      | cons q qs ihq =>
-        simp only [mapHas] at hp
-        by_cases hq : q.1 = p.1
-        · simp [hq] at hp
-        · simp only [hq, if_false] at hp
-          simp [mapSet, hq, ihq hp]
+      simp only [KV.add]; exact mapSet_fresh hp
     simp only [List.foldl_cons]
     rw [ih (kv.add p.1 p.2) (h.add _ _) hnd.2]
     · rw [hmap]; simp
@@ -385,5 +386,25 @@ theorem keyValParse_render {sep : Char} (hs1 : sep ≠ '=') (hs2 : sep ≠ '"') 
   rw [hraw]
   simp only [id]
   rw [KV.pairs_ofPairs_nodup (by rw [hkeys]; exact hnd)]
+
+end Rtsp.Hdr
+
+namespace Rtsp.Hdr
+
+theorem joinWith_texts (sep : Char) (es : List Elem) : joinWith sep (es.map Elem.text) = render sep 0 es := by
+  induction es with
+  | nil => rfl
+  | cons e rest ih =>
+    cases rest with
+    | nil => rfl
+    | cons e' es => simp only [List.map_cons, joinWith, render] at ih ⊢; rw [ih]; simp
+
+theorem splitOn_joinWith {sep : Char} : ∀ (parts : List Str), parts ≠ [] → (∀ p ∈ parts, sep ∉ p) →
+    splitOn sep (joinWith sep parts) = parts
+  | [], h, _ => absurd rfl h
+  | [p], _, h => by simpa [joinWith] using splitOn_noSep (h p (by simp))
+  | p :: q :: ps, _, h => by
+    simp only [joinWith]
+    rw [splitOn_append _ (h p (by simp)), splitOn_joinWith (q :: ps) (by simp) (fun x hx => h x (by simp [hx]))]
 
 end Rtsp.Hdr
